@@ -56,6 +56,9 @@ CmpB == "CMP_B" \in DOMAIN IOEnv /\ IOEnv.CMP_B = "1"
 \*   CMP_C  (C11) the encoding: token stream and size of to_bytes, result of from_bytes
 \*   CMP_K  (C17) prove / verify report InvalidGeneratorsLength exactly when the specification does (nothing else about the result)
 CmpK == "CMP_K" \in DOMAIN IOEnv /\ IOEnv.CMP_K = "1"
+\*   CMP_I  (C04) the verifier absorbs every proof element, with the payload the proof carries, before each challenge the protocol draws
+\*          after it - including the combiner r on the fork: the sequence of (proof-element appends, challenges) equals the model's
+CmpI == "CMP_I" \in DOMAIN IOEnv /\ IOEnv.CMP_I = "1"
 CmpG == Flag("CMP_G")
 CmpC == Flag("CMP_C")
 BlindFields(pf) == << pf.AI1, pf.AO1, pf.S1, pf.AI2, pf.AO2, pf.S2, pf.eb >>
@@ -93,6 +96,13 @@ OpsMatch(logged, model) ==
                   /\ \A k \in 1 .. Len(logged) : OpMatch(logged[k], model[k])
   /\ CmpR => /\ Len(RngOps(logged)) = Len(RngOps(model))
              /\ \A k \in 1 .. Len(RngOps(logged)) : OpMatch(RngOps(logged)[k], RngOps(model)[k])
+
+ProofLabels == {"A_I1", "A_O1", "S1", "A_I2", "A_O2", "S2", "T_1", "T_3", "T_4", "T_5", "T_6", "t_x", "t_x_blinding", "e_blinding", "L", "R"}
+ProofOrChal(ops) == SelectSeq(ops, LAMBDA o : (o.o = "A" /\ o.l \in ProofLabels) \/ o.o = "C")
+IntegrityOrder(logged, model) ==
+  LET a == ProofOrChal(logged)  b == ProofOrChal(model)
+  IN /\ Len(a) = Len(b)
+     /\ \A k \in 1 .. Len(a) : a[k].o = b[k].o /\ a[k].f = b[k].f /\ a[k].l = b[k].l /\ (b[k].o = "A" => OpMatch(a[k], b[k]))
 
 NewOps(role) == SubSeq(tr'[role], Len(tr[role]) + 1, Len(tr'[role]))
 
@@ -181,6 +191,7 @@ TraceVerify1 ==
   /\ IsEvent("verify1") /\ ~degen
   /\ CmpG => GensBound("V", Ev.cap)
   /\ VerifyStart
+  /\ CmpI => IntegrityOrder(Ev.tx, NewOps("V"))
   /\ OpsMatch(Ev.tx, NewOps("V"))
 
 (* C03: once the verifier reaches the algebraic check, its verdict must be that of the unbatched relations
@@ -198,6 +209,7 @@ VerifyOutcome ==
   \/ degen'
   \/ /\ CmpV => (res'.V = Ev.res /\ RefExplains)
      /\ CmpK => ((Ev.res = "InvalidGeneratorsLength") <=> (res'.V = "InvalidGeneratorsLength"))
+     /\ CmpI => IntegrityOrder(Ev.tx, NewOps("V"))
      /\ OpsMatch(Ev.tx, NewOps("V"))
 
 TraceVerify2 ==
